@@ -182,22 +182,34 @@ impl<U: TimeUnitTrait> DateTime<U> {
     {
         if let Some(fmt) = fmt {
             if let Ok(cr_dt) = NaiveDateTime::parse_from_str(s, fmt) {
-                Ok(cr_dt.into())
+                Self::from_parsed(cr_dt, s)
             } else if let Ok(cr_date) = NaiveDate::parse_from_str(s, fmt) {
-                Ok(cr_date.into())
+                Self::from_parsed(cr_date.and_time(NaiveTime::MIN), s)
             } else {
                 tbail!(ParseError:"Failed to parse datetime from string: {}", s)
             }
         } else {
             for fmt in TIME_RULE_VEC.iter() {
                 if let Ok(cr_dt) = NaiveDateTime::parse_from_str(s, fmt) {
-                    return Ok(cr_dt.into());
+                    return Self::from_parsed(cr_dt, s);
                 } else if let Ok(cr_date) = NaiveDate::parse_from_str(s, fmt) {
-                    return Ok(cr_date.into());
+                    return Self::from_parsed(cr_date.and_time(NaiveTime::MIN), s);
                 }
             }
             tbail!(ParseError:"Failed to parse datetime from string: {}", s)
         }
+    }
+
+    /// Converts a parsed date-time, reporting an instant the unit cannot hold as an error
+    /// (nanoseconds only cover 1677-09-21 .. 2262-04-11).
+    fn from_parsed(dt: NaiveDateTime, s: &str) -> TResult<Self>
+    where
+        Self: From<CrDateTime<Utc>>,
+    {
+        if U::unit() == TimeUnit::Nanosecond && dt.and_utc().timestamp_nanos_opt().is_none() {
+            tbail!(ParseError:"datetime is out of range for nanosecond unit: {}", s)
+        }
+        Ok(dt.into())
     }
 
     /// Formats the `DateTime` instance as a string.
